@@ -185,7 +185,7 @@ TRANSLATED = {
     'C07': ['splitIntoChunks', 'SessionData.SetAccessToken', 'SessionData.GetAccessToken', 'SessionData.expireAccessTokenChunks', 'SessionData.SetRefreshToken', 'SessionData.GetRefreshToken', 'SessionData.expireRefreshTokenChunks'],
     'C08': ['isUserAuthenticated'],
     'C11': ['determineScheme', 'determineHost'],
-    'C12': ['Cache.Set', 'Cache.Get', 'Cache.Delete', 'Cache.Cleanup', 'Cache.evictOldest', 'Cache.removeItem', 'TokenCache.Set', 'TokenCache.Get', 'TokenCache.Delete'],
+    'C12': ['Cache.Set', 'Cache.Get', 'Cache.Delete', 'Cache.Cleanup', 'Cache.evictOldest', 'Cache.removeItem', 'TokenCache.Set', 'TokenCache.Get', 'TokenCache.Delete', 'TokenCache.Cleanup'],
     'C13': ['Cache.Set', 'Cache.Get', 'Cache.Delete', 'Cache.Cleanup', 'Cache.evictOldest', 'Cache.removeItem'],
     'C14': ['VerifyToken', 'performPreVerificationChecks', 'cacheVerifiedToken', 'RevokeToken', 'TokenCache.Set', 'TokenCache.Get', 'TokenCache.Delete', 'the six methods of cache.go', 'VerifyJWTSignatureAndClaims'],
     'C15': ['isLocalRedirectTarget', 'buildFullURL', 'determineScheme', 'determineHost', 'Config.Validate'],
